@@ -392,6 +392,7 @@ pub struct Stats {
     pub restarts: u64,
     pub x_refreshes: u64,
     pub unchanged_sessions: u64,
+    pub dropped_executions: u64,
 }
 
 /// Oracle state carried along one history.
@@ -410,6 +411,8 @@ pub struct Oracle {
     pub stats: Stats,
     /// nodes re-executed in the current epoch (for the cut-off statistic)
     reexec_now: HashSet<NodeId>,
+    /// every completed execution's result: node -> [(epoch, value)]
+    pub value_history: HashMap<NodeId, Vec<(u64, i64)>>,
 }
 
 impl Oracle {
@@ -426,6 +429,7 @@ impl Oracle {
             violations: vec![],
             stats: Stats::default(),
             reexec_now: HashSet::new(),
+            value_history: HashMap::new(),
         }
     }
 
@@ -506,10 +510,17 @@ impl Oracle {
                         }
                     }
                 }
-                ExecResult::Panicked | ExecResult::Dropped => {
+                ExecResult::Dropped => {
+                    // the engine itself aborts sibling repairs of an unordered
+                    // group once one of them decided "recompute": a partial
+                    // run that is dropped is not a completed execution.
+                    self.stats.dropped_executions += 1;
+                    continue;
+                }
+                ExecResult::Panicked => {
                     if !allow_dropped {
-                        self.flag("C03", "executor-did-not-complete", Json::obj()
-                            .set("node", format!("{:?}", r.node)).set("result", format!("{:?}", r.result)));
+                        self.flag("C05", "executor-panicked-unexpectedly", Json::obj()
+                            .set("node", format!("{:?}", r.node)));
                     }
                     continue;
                 }
@@ -531,7 +542,26 @@ impl Oracle {
                     }
                     if let Some((pe, preads)) = &prev {
                         let changed = preads.iter().any(|(d, v)| now.get(d).is_none_or(|e| e != v));
-                        if !changed {
+                        // known finding C03-F1: a projection is always re-run by
+                        // backward projection when its firewall's value differs
+                        // from the firewall's *previous* value, even if it equals
+                        // the value the projection read in its own previous run
+                        // (firewall went A -> B -> A while the projection was not
+                        // demanded in between).
+                        let aba = r.node.kind == Kind::P
+                            && preads.iter().any(|(d, v)| {
+                                matches!(d.kind, Kind::F | Kind::P)
+                                    && self.value_history.get(d).is_some_and(|h| {
+                                        h.iter().any(|(e, hv)| *e > *pe && hv != v)
+                                    })
+                            });
+                        if !changed && aba {
+                            self.flag("C03", "projection-rerun-on-ABA-firewall", Json::obj()
+                                .set("node", format!("{:?}", r.node))
+                                .set("epoch", self.epoch)
+                                .set("previous_run_epoch", *pe)
+                                .set("previous_reads", format!("{preads:?}")));
+                        } else if !changed {
                             self.flag("C03", "unjustified-reexecution", Json::obj()
                                 .set("node", format!("{:?}", r.node))
                                 .set("epoch", self.epoch)
@@ -545,6 +575,9 @@ impl Oracle {
                 }
             }
             self.ran_in_epoch.insert(r.node);
+            if let ExecResult::Value(v) = &r.result {
+                self.value_history.entry(r.node).or_default().push((self.epoch, *v));
+            }
             self.last_run.insert(r.node, (self.epoch, r.reads.clone()));
         }
     }
@@ -594,8 +627,13 @@ pub async fn run_sequential<B: Backend>(
     let mut steps_done = 0;
     let mut shutdown_ok = true;
     let mut last_session_changed = true;
+    let mut first_query_in_epoch = true;
 
     for step in history {
+        match step {
+            Step::Session { .. } => first_query_in_epoch = true,
+            _ => {}
+        }
         match step {
             Step::Session { cells, writes, commit } => {
                 for (x, v) in cells {
@@ -670,6 +708,13 @@ pub async fn run_sequential<B: Backend>(
                     drop(s);
                 }
                 last_session_changed = changed;
+                if std::env::var("QV_DEBUG2").is_ok() {
+                    eprintln!("DEBUG2 session epoch {} changed={} writes={:?} commit={}", or.epoch, changed, writes, commit);
+                }
+                if std::env::var("QV_DEBUG").is_ok() {
+                    let t = engine.clone().tracked().await;
+                    eprintln!("DEBUG epoch {} changed={} dirtied={} writes={:?} commit={}", or.epoch, changed, t.get_dirtied_edges_count(), writes, commit);
+                }
                 if !changed {
                     or.stats.unchanged_sessions += 1;
                 }
@@ -695,7 +740,13 @@ pub async fn run_sequential<B: Backend>(
                 let got: Vec<(NodeId, i64)> = match mode {
                     QMode::Seq => {
                         let t = engine.clone().tracked().await;
-                        if !last_session_changed && t.get_dirtied_edges_count() != 0 {
+                        if std::env::var("QV_DEBUG2").is_ok() {
+                            eprintln!("DEBUG2 query epoch {} dirtied={} roots={:?}", or.epoch, t.get_dirtied_edges_count(), roots);
+                        }
+                        // only right after the session: later in the epoch the
+                        // statistic also counts firewall-triggered propagation
+                        // of changes made by *earlier* sessions
+                        if !last_session_changed && first_query_in_epoch && !prerepair_tfc && t.get_dirtied_edges_count() != 0 {
                             or.flag("C03", "dirtied-edges-after-unchanged-session", Json::obj()
                                 .set("count", t.get_dirtied_edges_count()).set("epoch", or.epoch));
                         }
@@ -742,6 +793,7 @@ pub async fn run_sequential<B: Backend>(
                 let recs = ctx.log.take();
                 or.judge(&recs, false, false);
                 or.count_cutoffs();
+                first_query_in_epoch = false;
                 let ov = std::mem::take(&mut *ctx.log.overlaps.lock());
                 for (n, _) in ov {
                     or.flag("C02", "single-flight-overlap", Json::obj().set("node", format!("{n:?}")));
